@@ -33,10 +33,10 @@ func (defvar *Defvar) layout(left int) (w int) {
 	defvar.x = left
 	w = len(defvar.name) + len(defvar.varName) + 3
 	if 0 < len(defvar.children) {
-		w += defvar.children[0].layout(w)
+		w += defvar.children[0].layout(left + w)
 		if 1 < len(defvar.children) {
 			// docs are always on a new line
-			cw := defvar.children[1].layout(2)
+			cw := defvar.children[1].layout(left + 2)
 			if w < cw+2 {
 				w = cw + 2
 			}
@@ -51,7 +51,7 @@ func (defvar *Defvar) layout(left int) (w int) {
 func (defvar *Defvar) reorg(edge int) int {
 	if edge < defvar.right() && 1 < len(defvar.children) {
 		defvar.wide = len(defvar.name) + len(defvar.varName) + 3
-		defvar.children[1].setLeft(2)
+		defvar.children[1].setLeft(defvar.x + 2)
 		cw := defvar.children[1].reorg(edge) + 1
 		if defvar.wide < cw+2 {
 			defvar.wide = cw + 2
